@@ -201,6 +201,7 @@ func c03V3(c *rt.Ctx) {
 	}
 	if len(outsC) > 0 {
 		var gate, isFilter, fromBuf, isCommit, ofRound, ofValue agg
+		bodyDone := map[*ssa.Call]bool{}
 		for _, o := range outsC {
 			pos := o.pt.pos()
 			g, w := k.quorumGate(o)
@@ -215,6 +216,10 @@ func c03V3(c *rt.Ctx) {
 				continue
 			}
 			merge(&isFilter, c03Yes, pos, "")
+			if !bodyDone[sp.call] {
+				bodyDone[sp.call] = true
+				c03V3FilterBody(c, k.eng, sp, "classify commits")
+			}
 			if sp.msgs == "c:"+c03P+".flatten("+k.bufT+")" {
 				merge(&fromBuf, c03Yes, pos, "")
 			} else {
@@ -567,5 +572,6 @@ func c03V3DecidedIn(c *rt.Ctx, commitT int64, fn *ssa.Function, base func() c03F
 	c.Check("isJustifiedDecided filters by the message's round", pos, spec.round == "m:Round("+mt+")", "COMMITs are not filtered by msg.Round()")
 	c.Check("isJustifiedDecided filters by the message's value", pos, spec.value == "m:Value("+mt+")" && spec.pr == "" && spec.pv == "",
 		"COMMITs are not filtered by msg.Value(): commits for different values add up to a quorum")
+	c03V3FilterBody(c, eng, *spec, "isJustifiedDecided commits")
 	return true
 }
